@@ -2813,6 +2813,13 @@ func (db *DB) Import(ctx context.Context, r io.Reader) error {
 	}
 	defer guard.Unlock()
 
+	// Convert the input to an LTX file first so that an input which cannot be
+	// imported is rejected before anything of the existing database is changed.
+	pos, err := db.importToLTX(ctx, r)
+	if err != nil {
+		return err
+	}
+
 	// Invalidate journal, if one exists.
 	if err := db.invalidateJournal(JournalModePersist); err != nil {
 		return fmt.Errorf("invalidate journal: %w", err)
@@ -2823,11 +2830,6 @@ func (db *DB) Import(ctx context.Context, r io.Reader) error {
 		if err := db.TruncateWAL(ctx, 0); err != nil {
 			return fmt.Errorf("truncate wal: %w", err)
 		}
-	}
-
-	pos, err := db.importToLTX(ctx, r)
-	if err != nil {
-		return err
 	}
 
 	return db.ApplyLTXNoLock(db.LTXPath(pos.TXID, pos.TXID), true)
